@@ -1,9 +1,9 @@
 package main
 
 import (
-	"io"
 	"bytes"
 	"fmt"
+	"io"
 	"os"
 
 	"github.com/muktihari/fit/decoder"
@@ -65,7 +65,7 @@ func c04(args []string) {
 			_ = why
 			continue
 		}
-		region := len(b) - 14 // message bytes + trailing CRC
+		region := len(b) - 14                 // message bytes + trailing CRC
 		for bit := 0; bit < region*8; bit++ { // every single bit
 			m := append([]byte(nil), b...)
 			m[14+bit/8] ^= 1 << uint(bit%8)
@@ -159,48 +159,73 @@ func c04(args []string) {
 			}
 		}
 	}
+	// zero data size: on its own, with a zero header CRC, with a 12-byte header, alone and behind an intact file
+	for _, hs := range []byte{12, 14} {
+		ec := r.encCfg()
+		ec.protoVer, ec.headerSize = proto.V2, hs
+		out, err := encodeFit(ec, r.genFit(mesgGenCfg{wellFormed: true, maxFields: 3}, 1, false))
+		if err != nil || len(out) < int(hs)+4 {
+			continue
+		}
+		for _, zeroCRC := range []bool{false, true} {
+			for _, tail := range [][]byte{{0, 0}, nil, {0}, out[len(out)-2:]} {
+				h := append([]byte(nil), out[:hs]...)
+				h[4], h[5], h[6], h[7] = 0, 0, 0, 0
+				if hs == 14 {
+					if zeroCRC {
+						h[12], h[13] = 0, 0
+					} else {
+						c := crcOf(h[:12])
+						h[12], h[13] = byte(c), byte(c>>8)
+					}
+				}
+				empty := append(h, tail...)
+				sweep = append(sweep, empty, append(append([]byte(nil), out...), empty...))
+			}
+		}
+	}
 	stat("header_size_sweep", len(sweep))
 	for i := -len(sweep); i < nref; i++ {
 		var b []byte
 		if i < 0 {
 			b = sweep[i+len(sweep)]
 		} else {
-		switch r.intn(8) {
-		case 0:
-			b = r.bytes(r.intn(40))
-		case 1:
-			b = pool[r.intn(len(pool))]
-		case 2:
-			b = r.mutate(pool[r.intn(len(pool))])
-		case 3: // header CRC zeroed / wrong, 12-byte headers, zero data size
-			ec := r.encCfg()
-			ec.protoVer = proto.V2
-			out, err := encodeFit(ec, r.genFit(mesgGenCfg{wellFormed: true, maxFields: 4}, 1+r.intn(3), false))
-			if err != nil {
-				continue
-			}
-			b = out
-			if len(b) > 14 && b[0] == 14 {
-				switch r.intn(4) {
-				case 0:
-					b[12], b[13] = 0, 0
-				case 1:
-					b[12] ^= 1
-				case 2:
-					b[4], b[5], b[6], b[7] = 0, 0, 0, 0
+			switch r.intn(8) {
+			case 0:
+				b = r.bytes(r.intn(40))
+			case 1:
+				b = pool[r.intn(len(pool))]
+			case 2:
+				b = r.mutate(pool[r.intn(len(pool))])
+			case 3: // header CRC zeroed / wrong, 12-byte headers, zero data size
+				ec := r.encCfg()
+				ec.protoVer = proto.V2
+				out, err := encodeFit(ec, r.genFit(mesgGenCfg{wellFormed: true, maxFields: 4}, 1+r.intn(3), false))
+				if err != nil {
+					continue
+				}
+				b = out
+				if len(b) > 14 && b[0] == 14 {
+					switch r.intn(4) {
+					case 0:
+						b[12], b[13] = 0, 0
+					case 1:
+						b[12] ^= 1
+					case 2:
+						b[4], b[5], b[6], b[7] = 0, 0, 0, 0
+					}
+				}
+			default:
+				ec, files := r.genChain(true)
+				out, _, err := encodeChain(ec, files)
+				if err != nil || len(out) == 0 {
+					continue
+				}
+				b = out
+				if r.chance(1, 3) {
+					b = r.mutate(b)
 				}
 			}
-		default:
-			ec, files := r.genChain(true)
-			out, _, err := encodeChain(ec, files)
-			if err != nil || len(out) == 0 {
-				continue
-			}
-			b = out
-			if r.chance(1, 3) {
-				b = r.mutate(b)
-			}
-		}
 		}
 		n, err, p := checkIntegrity(b)
 		// the verdict does not depend on how the reader hands the bytes over (all at once together with io.EOF / one byte at a time)
